@@ -6,6 +6,7 @@ import (
 	"crypto/sha256"
 	"encoding/hex"
 	"fmt"
+	"math"
 	"math/rand"
 	"sort"
 	"strings"
@@ -19,6 +20,7 @@ import (
 	gtfsrt "github.com/jamespfennell/gtfs/proto"
 	"google.golang.org/protobuf/encoding/protowire"
 	"google.golang.org/protobuf/proto"
+	"google.golang.org/protobuf/reflect/protoreflect"
 
 	"vharness/internal/abs"
 	"vharness/internal/sess"
@@ -185,6 +187,16 @@ func mutate(r *rand.Rand, b []byte, fault string, other []byte) []byte {
 			inner = protowire.AppendBytes(protowire.AppendTag(nil, 15, protowire.BytesType), inner)
 		}
 		b = append(b, inner...)
+	case "extreme-numbers":
+		// a well-formed message whose numeric and enum fields (present or not) take extreme values
+		m := &gtfsrt.FeedMessage{}
+		if err := proto.Unmarshal(b, m); err != nil {
+			return b
+		}
+		extremes(r, m.ProtoReflect(), 0)
+		if out, err := proto.Marshal(m); err == nil {
+			b = out
+		}
 	case "ext-field-garbage":
 		// append entities whose NYCT extension fields (1001) carry the wrong wire type or garbage
 		var td []byte
@@ -207,6 +219,50 @@ func mutate(r *rand.Rand, b []byte, fault string, other []byte) []byte {
 		b = protowire.AppendBytes(protowire.AppendTag(b, 2, protowire.BytesType), ent)
 	}
 	return b
+}
+
+// extremes sets numeric and enum fields of a message tree to boundary values.
+func extremes(r *rand.Rand, m protoreflect.Message, depth int) {
+	i64 := []int64{-1 << 63, -1 << 31, -1<<31 - 1, -1, 0, 1, 1<<31 - 1, 1 << 31, 1 << 32, 1<<63 - 1, 253402300800, -62135596801}
+	fds := m.Descriptor().Fields()
+	for i := 0; i < fds.Len(); i++ {
+		fd := fds.Get(i)
+		if fd.IsList() || fd.IsMap() {
+			if fd.IsList() && fd.Kind() == protoreflect.MessageKind && m.Has(fd) && depth < 6 {
+				l := m.Get(fd).List()
+				for k := 0; k < l.Len(); k++ {
+					extremes(r, l.Get(k).Message(), depth+1)
+				}
+			}
+			continue
+		}
+		if fd.Kind() == protoreflect.MessageKind {
+			if m.Has(fd) && depth < 6 {
+				extremes(r, m.Mutable(fd).Message(), depth+1)
+			}
+			continue
+		}
+		if fd.Number() == 1 && fd.Name() == "gtfs_realtime_version" || (!m.Has(fd) && r.Intn(3) != 0) || (m.Has(fd) && r.Intn(2) != 0) {
+			continue
+		}
+		x := i64[r.Intn(len(i64))]
+		switch fd.Kind() {
+		case protoreflect.Int32Kind, protoreflect.Sint32Kind, protoreflect.Sfixed32Kind:
+			m.Set(fd, protoreflect.ValueOfInt32(int32(x)))
+		case protoreflect.Uint32Kind, protoreflect.Fixed32Kind:
+			m.Set(fd, protoreflect.ValueOfUint32(uint32(x)))
+		case protoreflect.Int64Kind, protoreflect.Sint64Kind, protoreflect.Sfixed64Kind:
+			m.Set(fd, protoreflect.ValueOfInt64(x))
+		case protoreflect.Uint64Kind, protoreflect.Fixed64Kind:
+			m.Set(fd, protoreflect.ValueOfUint64(uint64(x)))
+		case protoreflect.FloatKind:
+			m.Set(fd, protoreflect.ValueOfFloat32([]float32{0, -1, 1e38, -1e38, float32(math.NaN()), float32(math.Inf(1))}[r.Intn(6)]))
+		case protoreflect.DoubleKind:
+			m.Set(fd, protoreflect.ValueOfFloat64([]float64{0, -1, 1e308, math.NaN(), math.Inf(-1)}[r.Intn(5)]))
+		case protoreflect.EnumKind:
+			m.Set(fd, protoreflect.ValueOfEnum(protoreflect.EnumNumber(int32(x))))
+		}
+	}
 }
 
 func sweepRealtime(res *gtfs.Realtime) {
